@@ -2,10 +2,10 @@
 
 CFG = {
     'sub': 'c09',
-    'gens': [],
+    'gens': [('gen_tx_order.py', 'TxOrder.v')],
     # everything Run_C09.v (-> Model_C02 -> Model_C19, Model_C01) and Props_C09.v (-> Proofs_C09b -> Proofs_C09 -> Model_C09, Run_C09) depend on
     'coq_files': ['Bytes.v', 'U64.v', 'KeyLayout.v', 'Pack.v', 'Value.v', 'Obs.v', 'Model_C19.v', 'Model_C01.v', 'Model_C02.v',
-                  'Run_C09.v', 'Model_C09.v', 'Proofs_C09.v', 'Proofs_C09b.v', 'Props_C09.v'],
+                  'Run_C09.v', 'Model_C09.v', 'Proofs_C09.v', 'TxOrder.v', 'Proofs_C09b.v', 'Props_C09.v'],
     'props': 'Props_C09.v', 'run': 'Run_C09.v',
     'harness_timeout': 900,
     'widen_runs': 2,
@@ -135,3 +135,9 @@ LEVEL = {
 }
 
 CFG['rule'] = CFG['rule'] + ' ' + 'Additions: 24 (quick) / 600 (thorough) forced-schedule runs: the writer is stopped inside its bbolt write transaction (before the batch callback, after it returned nil, after it returned an error) and complete vector / filter searches are run there from a cold, partially warm or warm cache (they must answer from the one committed version); then, without any writer, on a collection of 100+ points a second short search is started on the shared cache at the 1st..30th bucket operation of a first search from a cold start (read-only concurrency).'
+
+CFG.setdefault('trusted_extra', []).append(
+    'translator gen/gen_tx_order.py (reads the transaction bracket of InsertPoints / UpdatePoints / DeletePoints / SearchPoints off '
+    'shard/shard.go: cache transaction created before the storage transaction, used inside it only by NewIndexManager, settled '
+    'after it with Commit(true) iff it returned an error; exits 3 on any other shape); c09_writer_follows_bracket ties the model writer to it')
+
